@@ -41,7 +41,7 @@ ASSUMPTIONS = [
     'mutations only through the public surface of returned objects',
     'between histories lru caches are cleared; a poisoned worker aborts as broken harness',
 ]
-REQUIRED_CLASSES = ['A_returned', 'A_rejected', 'B_history', 'B_mutation_applied', 'group_graph', 'group_atoms', 'group_models', 'group_cif', 'cross_group']
+REQUIRED_CLASSES = ['A_returned', 'A_rejected', 'A_repeat_identical', 'B_history', 'B_mutation_applied', 'group_graph', 'group_atoms', 'group_models', 'group_cif', 'cross_group']
 BOUND = {'quick': 'part A full product; part B depth 3 within groups (graph group: depth 2 + (call,mutate,call)), depth 2 across groups', 'thorough': 'part A full product; part B full depth 3 for graph factories, depth 4 for lookups / model combinators / CIF combinators, depth 2 across groups'}
 CHUNK = 4
 
@@ -51,16 +51,41 @@ CHUNK = 4
 # ======================================================================================
 
 
-def _run_A(site, fn, args, desc, rec):
+_REJECT = (sc.UnitError, sc.DTypeError, sc.DimensionError, sc.VariancesError, sc.BinEdgeError, sc.CoordError, ValueError, TypeError, NotImplementedError)
+
+
+def _result_fp(out):
+    """Fingerprint of a result; objects without a value identity (builders, diagrams, file handles) count as opaque."""
+    if out is None or isinstance(out, sc.Variable | sc.DataArray | sc.Dataset | sc.DataGroup | dict | list | tuple | str | float | int):
+        return fp(out)
+    return ('opaque', type(out).__name__)
+
+
+def _run_A(site, fn, args, desc, rec, rebuild=None):
     before = {k: fp(v) for k, v in args.items()}
     rec.transitions += 1
     try:
         out = fn(**args)
         rec.cls('A_returned')
         rec.nontrivial += 1
-    except (sc.UnitError, sc.DTypeError, sc.DimensionError, sc.VariancesError, sc.BinEdgeError, sc.CoordError, ValueError, TypeError, NotImplementedError) as e:
+    except _REJECT as e:
         out = e
         rec.cls('A_rejected')
+    if rebuild is not None and not isinstance(out, Exception):
+        # same call again with freshly built, equal arguments: the result may not depend on the earlier call
+        fn2, args2, _ = rebuild()
+        rec.transitions += 1
+        rec.validated += 1
+        try:
+            out2 = fn2(**args2)
+            same = _result_fp(out2) == _result_fp(out)
+        except _REJECT as e:
+            same, out2 = False, e
+        if not same:
+            rec.viol(site, 'result_depends_on_call_history', f'second call with equal, freshly built arguments gives a different result ({desc}): {str(out2)[:120]}', desc=desc)
+        else:
+            rec.cls('A_repeat_identical')
+        del out2
     rec.evals += 1
     rec.states += 1
     after = {k: fp(v) for k, v in args.items()}
@@ -521,10 +546,10 @@ def run_case(case, rec):
     if case['part'] == 'A-kernel':
         for combo in case['combos']:
             fn, args, desc = reg.build_kernel(case['site'], combo)
-            _run_A(case['site'].split('/')[0], fn, args, desc, rec)
+            _run_A(case['site'].split('/')[0], fn, args, desc, rec, rebuild=lambda c=combo: reg.build_kernel(case['site'], c))
     elif case['part'] == 'A-object':
         fn, args, desc = reg.OBJECT_SITES[case['site']](case['variant'])
-        _run_A(case['site'], fn, args, desc, rec)
+        _run_A(case['site'], fn, args, desc, rec, rebuild=lambda: reg.OBJECT_SITES[case['site']](case['variant']))
     else:
         seen = set()
         for h in case['histories']:
